@@ -15,6 +15,7 @@ Lit(n) == [e |-> ToString(n), kind |-> "lit", col |-> "", contr |-> "", lit |-> 
 a == Num("a")  b == Num("b")  h == Num("h")  A == Cat("A", "A")  CA == Cat("C(A)", "A")
 CS == [e |-> "C(A, contr.sum)", kind |-> "cat", col |-> "A", contr |-> "sum", lit |-> 1]
 CHm == [e |-> "C(A, contr.helmert)", kind |-> "cat", col |-> "A", contr |-> "helmert", lit |-> 1]
+CL == Cat("C(L)", "A")        \* the values of A held by the caller's context as an array of strings (no column of the frame)
 I1 == <<Lit(1)>>
 
 \* formulas: [shape, lhs (sequence of parts), rhs (sequence of parts)], a part = sequence of terms
@@ -37,8 +38,9 @@ Formulas == <<
   F("root", <<>>, << <<I1, <<CHm>>>>, <<<<CHm>>, <<CHm, b>>>> >>),         \* C(A, contr.helmert) | 0 + C(A, contr.helmert) + C(A, contr.helmert):b
   \* the same interaction in two parts whose other terms differ: its full/reduced coding is decided per part
   F("two", << <<<<b>>>> >>, << <<I1, <<A>>, <<A, a>>>>, <<I1, <<a>>, <<A, a>>>> >>),     \* b ~ A + A:a | a + A:a
-  F("root", <<>>, << <<I1, <<a>>, <<A, a>>>>, <<<<A, a>>>>, <<I1, <<A>>, <<A, a>>>> >>) >>     \* a + A:a | 0 + A:a | A + A:a
-FormulaIds == IF FormulaSet = "c06" THEN 1..9 ELSE {4, 5, 8, 9, 10, 11, 12, 13, 14, 15, 16}
+  F("root", <<>>, << <<I1, <<a>>, <<A, a>>>>, <<<<A, a>>>>, <<I1, <<A>>, <<A, a>>>> >>),     \* a + A:a | 0 + A:a | A + A:a
+  F("root", <<>>, << <<I1, <<b>>, <<CL>>>> >>) >>                       \* b + C(L)
+FormulaIds == IF FormulaSet = "c06" THEN 1..9 \cup {17} ELSE {4, 5, 8, 9, 10, 11, 12, 13, 14, 15, 16}
 
 VARIABLES na_, nb_, nA_, fid, na, drop0
 vars == <<na_, nb_, nA_, fid, na, drop0>>
